@@ -165,6 +165,41 @@ def r2_passes(prog, res):
                             ok = True
         res.add("R2.sibling_passes", "R2|src/cleditor/STEPfile.cc|%s|skips-deleted" % name, f.where(), ok,
                 "instances marked deleted are skipped" if ok else "the pass does not skip instances whose state letter is 'deleted'")
+    # the two passes read the same text: the state letter is accepted under the same condition and followed by the same
+    # sequence of consuming stream operations (a comment may stand between the letter and '#'; pass 2 parses it)
+    shapes = {}
+    for name in ("STEPfile::ReadData1", "STEPfile::ReadData2"):
+        f = prog.one(name)
+        if f is None:
+            continue
+        for c in f.calls():
+            if not (c.get("fn") or "").endswith("EntityWfState"):
+                continue
+            ifs = [a for a in f.ancestors(c) if a["k"] == "If"]
+            if not ifs:
+                continue
+            inner = ifs[0]
+            guard = expr_str(strip(inner["ch"][0]))
+            seq = []
+            for y in walk(inner["ch"][1]):
+                if y["k"] == "Call":
+                    fn = (y.get("fn") or "")
+                    if fn.endswith("ReadTokenSeparator"):
+                        seq.append("ReadTokenSeparator")
+                    elif "operator>>" in fn:
+                        seq.append(">>")
+                    elif fn.split("::")[-1] in ("get", "peek", "putback", "ignore", "unget"):
+                        seq.append(fn.split("::")[-1])
+            shapes[name] = (guard, tuple(seq), f.where(inner))
+    if len(shapes) == 2:
+        (g1, s1, w1), (g2, s2, w2) = shapes["STEPfile::ReadData1"], shapes["STEPfile::ReadData2"]
+        ok = g1 == g2 and s1 == s2
+        res.add("R2.prefix_parsed_alike", "R2|src/cleditor/STEPfile.cc|ReadData1~ReadData2|state-prefix", w1, ok,
+                "both passes accept the state letter under `%s` and then consume %s" % (g1, list(s1)) if ok else
+                "pass 1 accepts the state letter under `%s` and then consumes %s, pass 2 under `%s` and then %s: text that one pass takes as "
+                "`<letter> <comment> #id` the other does not, so the instance is created with one state and read with another" % (g1, list(s1), g2, list(s2)))
+    else:
+        res.broke("R2: the state-prefix parse (EntityWfState under a condition) was not found in both passes")
     # pass 1 appends with the parsed state for working-session files
     f = prog.one("STEPfile::ReadData1")
     if f:
